@@ -59,6 +59,7 @@ CONTROLS = {
          "        if (using_polytree_)\n        {\n          SetOwner(outrec, prevHotEdge->outrec);\n          outrec->is_open = false;\n        }", "CONFINE"),
     ],
     "C05": [
+        ("DoMaxima clears the other end's pointer", 'CPP/Clipper2Lib/src/clipper.engine.cpp', '          if (IsFront(e))\n            e.outrec->front_edge = nullptr;\n          else\n            e.outrec->back_edge = nullptr;\n          e.outrec = nullptr;\n        }\n        DeleteFromAEL(e);', '          if (IsFront(e))\n            e.outrec->back_edge = nullptr;\n          else\n            e.outrec->front_edge = nullptr;\n          e.outrec = nullptr;\n        }\n        DeleteFromAEL(e);', 'T.detach'),
         ("ClipperD's closed-only Execute builds without an open target", 'CPP/Clipper2Lib/include/clipper2/clipper.engine.h', '\t\t\tPathsD dummy;\n\t\t\treturn Execute(clip_type, fill_rule, closed_paths, dummy);', '#ifdef USINGZ\n\t\t\tCheckCallback();\n#endif\n\t\t\tif (ExecuteInternal(clip_type, fill_rule, false))\n\t\t\t\tBuildPathsD(closed_paths, nullptr);\n\t\t\tCleanUp();\n\t\t\treturn succeeded_;', 'OPEN.flag'),
         ("BuildTree64 builds open pieces as closed", E, "        if (BuildPath64(outrec->pts, reverse_solution_, true, path))\n          open_paths.emplace_back(std::move(path));\n        continue;", "        if (BuildPath64(outrec->pts, reverse_solution_, false, path))\n          open_paths.emplace_back(std::move(path));\n        continue;", "OPEN.flag"),
         ("BuildPathsD appends to what the caller's open vector held", E, "      solutionOpen->resize(0);\n      solutionOpen->reserve(outrec_list_.size());\n    }\n\n    // outrec_list_.size() is not static here because\n    // CleanCollinear below can indirectly add additional\n    // OutRec (via FixOutRecPts)",
@@ -71,6 +72,7 @@ CONTROLS = {
         ("closing vertex compared with the first vertex of the first path", E, "if (!is_open && prev_v->pt == v0->pt)", "if (!is_open && prev_v->pt == vertices->pt)", "ADD.closing-vertex"),
     ],
     "C06": [
+        ('square join pushed out by the signed delta in y', 'CPP/Clipper2Lib/src/clipper.offset.cpp', '\tptQ = TranslatePoint(ptQ, abs_delta * vec.x, abs_delta * vec.y);', '\tptQ = TranslatePoint(ptQ, abs_delta * vec.x, group_delta_ * vec.y);', 'POLY.offset'),
         ('bevel joins made as square joins', 'CPP/Clipper2Lib/src/clipper.offset.cpp', '\telse if ( join_type_ == JoinType::Bevel)\n\t\tDoBevel(path, j, k);', '\telse if ( join_type_ == JoinType::Bevel)\n\t\tDoSquare(path, j, k);', 'JOIN.dispatch'),
         ('zero delta returns before the clean-up union', 'CPP/Clipper2Lib/src/clipper.offset.cpp', '\tsolution->reserve(CalcSolutionCapacity());\n', '\tsolution->reserve(CalcSolutionCapacity());\n\tif (delta == 0) return;\n', 'OFFSET.cleanup'),
         ('miter point uses one normal twice (both builds)', 'CPP/Clipper2Lib/src/clipper.offset.cpp', '#ifdef USINGZ\n    path_out.emplace_back(\n\t\tpath[j].x + (norms[k].x + norms[j].x) * q,\n\t\tpath[j].y + (norms[k].y + norms[j].y) * q,\n        path[j].z);\n#else\n    path_out.emplace_back(\n\t\tpath[j].x + (norms[k].x + norms[j].x) * q,\n        path[j].y + (norms[k].y + norms[j].y) * q);', '#ifdef USINGZ\n    path_out.emplace_back(\n\t\tpath[j].x + (norms[k].x + norms[j].x) * q,\n\t\tpath[j].y + (norms[k].y + norms[k].y) * q,\n        path[j].z);\n#else\n    path_out.emplace_back(\n\t\tpath[j].x + (norms[k].x + norms[j].x) * q,\n        path[j].y + (norms[k].y + norms[k].y) * q);', 'POLY.offset'),
@@ -84,6 +86,7 @@ CONTROLS = {
         ("Paths64 Execute no longer clears the tree target", O, "\tsolution = &paths64;\n\tsolution_tree = nullptr;", "\tsolution = &paths64;", "TARGET.set"),
     ],
     "C19": [
+        ('degenerate quads skipped before the previous pattern index is advanced', 'CPP/Clipper2Lib/include/clipper2/clipper.minkowski.h', '          if (!IsPositive(quad))\n            std::reverse(quad.begin(), quad.end());', '          if (quad[0] == quad[2]) continue;\n          if (!IsPositive(quad))\n            std::reverse(quad.begin(), quad.end());', 'MINK.quad'),
         ("quads not normalised", H + "clipper.minkowski.h", "          if (!IsPositive(quad))\n            std::reverse(quad.begin(), quad.end());\n", "", "MINK.orientation"),
         ("closing edge swept for open paths", H + "clipper.minkowski.h", "      size_t delta = isClosed ? 0 : 1;", "      size_t delta = 0;", "MINK.closing-edge"),
         ("sum computed with the operands exchanged", H + "clipper.minkowski.h", "      if (patLen == 0 || pathLen == 0) return Paths64();\n", "      if (patLen == 0 || pathLen == 0) return Paths64();\n      if (isSum && pathLen > patLen) return Minkowski(path, pattern, true, isClosed);\n", "MINK.roles"),
@@ -117,6 +120,7 @@ CONTROLS = {
         ("results_ not cleared per polyline", R, "          result.emplace_back(std::move(tmp));\n      }\n      results_.clear();\n\n      op_container_ = std::deque<OutPt2>();", "          result.emplace_back(std::move(tmp));\n      }\n\n      op_container_ = std::deque<OutPt2>();", "CLEAN"),
     ],
     "C10": [
+        ('GetPrior scans down to and including its lower bound', 'CPP/Clipper2Lib/include/clipper2/clipper.h', '    while (current > 0 && flags[current]) --current;\n    if (!flags[current]) return current;', '    while (current >= high - high && flags[current]) --current;\n    if (!flags[current]) return current;', 'GUARD.unsigned-decrement'),
         ('transform destination sized by the other operand', 'CPP/Clipper2Lib/include/clipper2/clipper.minkowski.h', '          Path64 path2(pattern.size());\n          std::transform(pattern.cbegin(), pattern.cend(),\n            path2.begin(), [p](const Point64& pt2) {return p + pt2; });', '          Path64 path2(path.size());\n          std::transform(pattern.cbegin(), pattern.cend(),\n            path2.begin(), [p](const Point64& pt2) {return p + pt2; });', 'DEST.sized'),
         ("BuildTreeD walks outrec_list_ with a range-for while CheckBounds can append to it", E, "    // BuildPathD below can indirectly add additional OutRec //#607\n    for (size_t i = 0; i < outrec_list_.size(); ++i)\n    {\n      OutRec* outrec = outrec_list_[i];",
          "    for (OutRec* outrec : outrec_list_)\n    {", "ITER.stable"),
@@ -132,6 +136,7 @@ CONTROLS = {
         ("DisposeOutPt deletes before unlinking", E, "    op->prev->next = op->next;\n    op->next->prev = op->prev;\n    delete op;", "    delete op;\n    op->prev->next = op->next;\n    op->next->prev = op->prev;", "LINK.consistent-at-throw"),
     ],
     "C11": [
+        ('tree overload empties its output only after the precision check', 'CPP/Clipper2Lib/include/clipper2/clipper.h', '    polytree.Clear();\n    int error_code = 0;\n    CheckPrecisionRange(precision, error_code);\n    if (error_code) return;\n    ClipperD clipper(precision);', '    int error_code = 0;\n    CheckPrecisionRange(precision, error_code);\n    if (error_code) return;\n    polytree.Clear();\n    ClipperD clipper(precision);', 'R2.error-consumed'),
         ('RectClip(PathsD) validates through the overload that drops the error', 'CPP/Clipper2Lib/include/clipper2/clipper.h', '    CheckPrecisionRange(precision, error_code);\n    if (error_code) return PathsD();\n    const double scale = std::pow(10, precision);\n    Rect64 r = ScaleRect<int64_t, double>(rect, scale);\n    RectClip64 rc(r);', '    CheckPrecisionRange(precision);\n    if (error_code) return PathsD();\n    const double scale = std::pow(10, precision);\n    Rect64 r = ScaleRect<int64_t, double>(rect, scale);\n    RectClip64 rc(r);', 'R2.error-consumed'),
         ("first vertex never reaches the maximum of GetBounds", H + "clipper.core.h", "      if (p.x < xmin) xmin = static_cast<T>(p.x);\n      if (p.x > xmax) xmax = static_cast<T>(p.x);\n      if (p.y < ymin) ymin = static_cast<T>(p.y);\n      if (p.y > ymax) ymax = static_cast<T>(p.y);\n    }\n    return Rect<T>(xmin, ymin, xmax, ymax);\n  }\n\n  template <typename T, typename T2>\n  Rect<T> GetBounds(const Paths<T2>& paths)",
          "      if (p.x < xmin) xmin = static_cast<T>(p.x);\n      else if (p.x > xmax) xmax = static_cast<T>(p.x);\n      if (p.y < ymin) ymin = static_cast<T>(p.y);\n      if (p.y > ymax) ymax = static_cast<T>(p.y);\n    }\n    return Rect<T>(xmin, ymin, xmax, ymax);\n  }\n\n  template <typename T, typename T2>\n  Rect<T> GetBounds(const Paths<T2>& paths)", "BOUNDS.minmax"),
@@ -169,6 +174,7 @@ CONTROLS = {
          "\t\tfriend class ClipperBase;\n\t\tmutable LocalMinimaList minima_list_;\n\t\tstd::vector<Vertex*> vertex_lists_;\n\t\tvoid AddLocMin", "R2b.container-read-only"),
     ],
     "C15": [
+        ('first vertex of a D path loses its z', 'CPP/Clipper2Lib/src/clipper.engine.cpp', '#ifdef USINGZ\n    path.emplace_back(lastPt.x * inv_scale, lastPt.y * inv_scale, lastPt.z);\n#else\n    path.emplace_back(lastPt.x * inv_scale, lastPt.y * inv_scale);\n#endif\n\n    while (op2 != op)', '    path.emplace_back(lastPt.x * inv_scale, lastPt.y * inv_scale);\n\n    while (op2 != op)', 'Z.carry'),
         ('RectClipLines keeps its intersection points across vertices', 'CPP/Clipper2Lib/src/clipper.rectclip.cpp', '    while (i <= highI)\n    {\n      prev = loc;\n      GetNextLocation(path, loc, i, highI);\n      if (i > highI) break;\n      Point64 ip, ip2;\n      Point64 prev_pt = path[static_cast<size_t>(i - 1)];', '    Point64 ip, ip2;\n    while (i <= highI)\n    {\n      prev = loc;\n      GetNextLocation(path, loc, i, highI);\n      if (i > highI) break;\n      Point64 prev_pt = path[static_cast<size_t>(i - 1)];', 'Z.out-point-fresh'),
         ("CheckCallback keeps a proxy that is already bound", H + "clipper.engine.h", "\t\tvoid CheckCallback()\n\t\t{\n", "\t\tvoid CheckCallback()\n\t\t{\n\t\t\tif (ClipperBase::zCallback_) return;\n", "ZCB.rebound"),
         ("one crossing vertex no longer reaches SetZ", E, "      resultOp = AddOutPt(e2, pt);\n      if (zCallback_) SetZ(e1, e2, resultOp->pt);", "      resultOp = AddOutPt(e2, pt);", "Z.must-follow"),
@@ -183,6 +189,7 @@ CONTROLS = {
          "    if (path.size() == 3 && IsVerySmallTriangle(*op2)) return false;\n    return true;", "SIBLING.64-D"),
     ],
     "C17": [
+        ('InflatePathsD adds every path as a group of its own', 'CPP/Clipper2Lib/include/clipper2/clipper.export.h', '  Paths64 pp = ConvertCPathsDToPaths64(paths, scale);\n  clip_offset.AddPaths(pp, JoinType(jointype), EndType(endtype));', '  Paths64 pp = ConvertCPathsDToPaths64(paths, scale);\n  for (const Path64& p1 : pp) clip_offset.AddPath(p1, JoinType(jointype), EndType(endtype));', 'FORWARD.param'),
         ('BooleanOp64 adds the subject only when there are clips', 'CPP/Clipper2Lib/include/clipper2/clipper.export.h', '  if (sub.size() > 0) clipper.AddSubject(sub);\n  if (sub_open.size() > 0) clipper.AddOpenSubject(sub_open);\n  if (clp.size() > 0) clipper.AddClip(clp);\n  if (!clipper.Execute(ClipType(cliptype), FillRule(fillrule), sol, sol_open))\n    return -1; // clipping bug - should never happen :)', '  if (sub.size() > 0 && clp.size() > 0) clipper.AddSubject(sub);\n  if (sub_open.size() > 0) clipper.AddOpenSubject(sub_open);\n  if (clp.size() > 0) clipper.AddClip(clp);\n  if (!clipper.Execute(ClipType(cliptype), FillRule(fillrule), sol, sol_open))\n    return -1; // clipping bug - should never happen :)', 'FORWARD.param'),
         ("tree serialiser takes the write cursor by value", H + "clipper.export.h", "static void CreateCPolyPathD(const PolyPathD* pp, double*& v)", "static void CreateCPolyPathD(const PolyPathD* pp, double* v)", "LAYOUT.cursor"),
         ("export converter truncates instead of rounding", H + "clipper.export.h", "    {\n      double x = *v++ * scale;\n      double y = *v++ * scale;\n#ifdef USINGZ\n      z_type z = Reinterpret<z_type>(*v++);\n      path.emplace_back(x, y, z);", "    {\n      int64_t x = static_cast<int64_t>(*v++ * scale);\n      int64_t y = static_cast<int64_t>(*v++ * scale);\n#ifdef USINGZ\n      z_type z = Reinterpret<z_type>(*v++);\n      path.emplace_back(x, y, z);", "ROUND"),
